@@ -32,7 +32,7 @@ KNOBS = {
     "p_mw_replace": 0.0,
     "durations": {"zero": 3, "tiny": 4, "short": 4, "medium": 1, "long": 0, "poll": 0},
 }
-FAILS = ["ValueError", "KeyError", "SimError", "KeyboardInterrupt", "SimBaseError"]
+FAILS = ["ValueError", "KeyError", "SimError", "KeyboardInterrupt", "SimBaseError", "SimFalsy"]
 
 
 def gen(rs: int, tier: str, index: int) -> dict:
